@@ -335,6 +335,70 @@ theorem nearest_valid_frame {β V : Type} (ops : NearOps β) (fuel : Nat) (view 
         rw [nearest_identity_on_valid ops fuel _ h]
       rw [this]
 
+/-! ## Model.create / Model.replace: every model has valid initial estimates -/
+
+/-- Valid estimates are returned as they are (the same object). -/
+theorem canonicalize_valid_untouched {P R : Type} (valid : P → R → Bool) (repair : P → R → P) (p : P) (r : R)
+    (h : valid p r = true) : canonicalizeEstimates valid repair p r = p := by
+  simp [canonicalizeEstimates, h]
+
+/-- Invalid estimates are replaced by the repaired ones (`nearest_valid_parameters`). -/
+theorem canonicalize_invalid_repaired {P R : Type} (valid : P → R → Bool) (repair : P → R → P) (p : P) (r : R)
+    (h : valid p r = false) : canonicalizeEstimates valid repair p r = repair p r := by
+  simp [canonicalizeEstimates, h]
+
+/-- If the repair produces valid estimates (numerics, abstract), so does canonicalisation. -/
+theorem canonicalize_result_valid {P R : Type} (valid : P → R → Bool) (repair : P → R → P)
+    (hrep : ∀ p r, valid (repair p r) r = true) (p : P) (r : R) :
+    valid (canonicalizeEstimates valid repair p r) r = true := by
+  unfold canonicalizeEstimates
+  by_cases h : valid p r = true
+  · rw [if_pos h]; exact h
+  · rw [if_neg h]; exact hrep p r
+
+/-- `replace` with valid resulting estimates does not touch them, whichever arguments are passed. -/
+theorem replace_valid_untouched {P R : Type} (valid : P → R → Bool) (repair : P → R → P) (m : MState P R)
+    (newP : Option P) (newR : Option R) (h : valid (newP.getD m.params) (newR.getD m.rvs) = true) :
+    (modelReplace valid repair m newP newR).params = newP.getD m.params ∧
+    (modelReplace valid repair m newP newR).rvs = newR.getD m.rvs :=
+  ⟨canonicalize_valid_untouched valid repair _ _ h, rfl⟩
+
+/-- `replace` repairs invalid resulting estimates — also when only `random_variables` is passed. -/
+theorem replace_invalid_repaired {P R : Type} (valid : P → R → Bool) (repair : P → R → P) (m : MState P R)
+    (newP : Option P) (newR : Option R) (h : valid (newP.getD m.params) (newR.getD m.rvs) = false) :
+    (modelReplace valid repair m newP newR).params = repair (newP.getD m.params) (newR.getD m.rvs) :=
+  canonicalize_invalid_repaired valid repair _ _ h
+
+/-- Every model has valid initial estimates: after `create` and any history of `replace` calls
+    (parameters, random variables, both or neither passed), the estimates are valid for the
+    random variables of the model. -/
+theorem model_estimates_always_valid {P R : Type} (valid : P → R → Bool) (repair : P → R → P)
+    (hrep : ∀ p r, valid (repair p r) r = true) (p : P) (r : R) (ops : List (Option P × Option R)) :
+    let m := modelHistory valid repair (modelCreate valid repair p r) ops
+    valid m.params m.rvs = true := by
+  have inv : ∀ (ops : List (Option P × Option R)) (m : MState P R), valid m.params m.rvs = true →
+      valid (modelHistory valid repair m ops).params (modelHistory valid repair m ops).rvs = true := by
+    intro ops
+    induction ops with
+    | nil => intro m h; exact h
+    | cons op ops ih =>
+      intro m _
+      simp only [modelHistory, List.foldl_cons]
+      exact ih _ (canonicalize_result_valid valid repair hrep _ _)
+  exact inv ops _ (canonicalize_result_valid valid repair hrep p r)
+
+/-- The decision matters: if `replace` canonicalised only when `parameters` is passed, replacing
+    the random variables alone would leave a model with invalid estimates. -/
+theorem replace_only_if_params_witness :
+    let valid : Bool → Bool → Bool := fun p r => p == r
+    let repair : Bool → Bool → Bool := fun _ r => r
+    (∀ p r, valid (repair p r) r = true) ∧
+    (let m := modelReplaceOnlyIfParams valid repair (modelCreate valid repair true true) none (some false)
+     valid m.params m.rvs = false) ∧
+    (let m := modelReplace valid repair (modelCreate valid repair true true) none (some false)
+     valid m.params m.rvs = true) := by
+  decide
+
 /-! ## internals.math -/
 
 /-- `triangular_root(T_n) = n` for every n (exact integer square root). -/
